@@ -18,4 +18,18 @@ TEXTS = {
                    "lock cycle and is reported with the schedule that produced it; the locker call sequence of every request is checked too.",
         level_note=TRUST + " A run that exhausts its (workload-derived) step budget is counted as truncated/inconclusive, never as a violation."),
 }
+TEXTS["C01"] = dict(
+    technique="deterministic simulation: seeded conflict-seeking request histories (sequential and scheduled-concurrent) with restarts; pairwise ledger oracle",
+    level_text="Seeded search over histories of attestation requests against one real Dirk instance (handlers to badger): each request is derived from what "
+               "has already been released for the key (same target/different root, surround, surrounded, advance, boundary values up to 2^64-1), single and "
+               "batched, by name/key/both, batches repeating a key; half the runs execute phases of 2-5 requests concurrently under the seeded scheduler; "
+               "clean restarts and crash restarts (directory image) occur between requests. Every released signature is BLS-verified and compared pairwise "
+               "with every earlier one for the key. Exploration over histories is what the property quantifies over.",
+    level_note=TRUST)
+TEXTS["C02"] = dict(
+    technique="deterministic simulation: seeded conflict-seeking proposal histories with restarts; pairwise ledger oracle, strict slot order in sequential histories",
+    level_text="As C01 for block proposals: same-slot/different-block, lower-slot, advancing and boundary slots (up to 2^64-1), proposer and foreign domains, "
+               "by name and by key, sequential or in concurrent phases, with clean and crash restarts. Released proposals are compared pairwise per key; in "
+               "sequential histories slots must strictly increase in release order (under concurrency response order is not defined, so only the pairwise check applies there).",
+    level_note=TRUST)
 NOT_APPLICABLE = {}
